@@ -72,6 +72,8 @@ pub struct MemInner {
     pub ios: usize,
     pub sender: Option<EventSender>,
     pub hot: bool,
+    /// `configure_hot_reloading` keeps the sender (as a source that registers with its notifier first would) and then fails
+    pub cfg_fail: bool,
     pub read_log: Vec<String>,
 }
 
@@ -156,7 +158,9 @@ impl Source for MemSource {
     }
 
     fn configure_hot_reloading(&self, events: EventSender) -> Result<(), BoxedError> {
-        self.lock().sender = Some(events);
+        let mut g = self.lock();
+        g.sender = Some(events);
+        if g.cfg_fail { return Err("the watcher could not be started".into()); }
         Ok(())
     }
 }
